@@ -9,6 +9,10 @@ NOTE = ("Trusted base: go/types, x/tools go/ssa v0.29.0, CHA/VTA call graphs (no
         "The check proves the named structural clauses for all paths of the analysed code; it does not prove the behaviour as a whole.")
 
 CLAIMS = {
+ "C04": dict(
+   text="Structural clauses of server command framing, for all paths: exactly one tagged completion per dispatched command (count of tag-carrying writer calls per path against the nil-ness of the returned error, in readCommand and every self-completing handler, with lemma L1 on the decoder proved on every run); a literal opened on the server decoder is drained, refused only when known synchronising, or refused with the connection terminated, and a refusal puts the decoder in its error state (interprocedural through the CheckBufferedLiteralFunc callback and helper summaries); continuation requests only from literal acceptance/IDLE/AUTHENTICATE after their gates; response-encoder (write lock) pairing and exclusive access to the connection's writer; line discard before completion. 'other': necessary structural conditions, not a proof that the tokenizer never mis-splits bytes.",
+   technique="path-sensitive must/may dataflow over go/ssa (completion counting x error nil-ness, literal typestate with interprocedural refusal summaries), who-may-call and acquire/release pairing rules",
+   design="§4 C04"),
  "C05": dict(
    text="Structural clauses of the server state machine decided on every run for all paths of all handlers: session calls only in permitted states (abstract interpretation of Conn.state over the 5 states), credentials only after canAuth()==true (truth table evaluated exhaustively), state writes only after the enabling backend call succeeded and only along RFC 9051 transitions, no command read in Logout, unknown pre-auth command ends in BYE, dispatch table exhaustive. 'other' because these are necessary structural conditions proven statically, not a proof of the whole behaviour (backends are opaque).",
    technique="abstract interpretation of the connection-state field over go/ssa (may-sets, edge refinement, interprocedural) + must-pass-through gate dataflow + exhaustive truth-table evaluation of canAuth",
